@@ -48,6 +48,14 @@ def run(tier, seed, replay=None):
             pts.append((f"{name}@w=100,se={se},mix", name, text,
                         dict(o, max_width=100, style_edition=se)))
     pts += universe.option_points(tier, seed)
+    # every option value x instances of every template family
+    for opt, vals in universe.OPTION_SWEEP:
+        for val in vals:
+            for (name, text) in universe.family_instances(f"{opt}={val}", universe.boundary_sources(),
+                                                           per_family=1 if tier == "quick" else 3):
+                se = universe.STYLE_EDITIONS[core.fnv(f"{opt}{name}".encode()) % 3]
+                pts.append((f"{name}@w=100,se={se},opt.{opt}={val}", name, text,
+                            {"max_width": 100, "style_edition": se, opt: val}))
     jobs1 = []
     for k, (pid, name, text, opts) in enumerate(pts):
         jobs1.append({"id": len(jobs1), "src": text, "opts": opts, "want": ["out"], "_pid": pid})
